@@ -182,4 +182,38 @@ theorem no_retry_one_request (hash : Nat → Nat) (prior : Option Nat) (b : Nat)
   simp [download, start, checkSum, nData, fetch, logData] <;>
   (repeat' split) <;> simp_all
 
+/-! ### HTTP statuses -/
+
+theorem data_of_error_status (status b : Nat) (h : isHttpError status = true) :
+    dataOfStatus status b = .httpError := by
+  have h2 : status ≠ 200 := by
+    intro e; subst e; simp [isHttpError] at h
+  simp [dataOfStatus, getRaises, h, h2]
+
+theorem data_of_200 (b : Nat) : dataOfStatus 200 b = .body b := by
+  simp [dataOfStatus, getRaises]
+
+theorem sum_of_error_status (render : List (Nat × List Nat)) (other status : Nat) (t : List Nat)
+    (h : isHttpError status = true) : parseSum render other (sumOfStatus status t) = .missing := by
+  have h2 : status ≠ 200 := by
+    intro e; subst e; simp [isHttpError] at h
+  simp [sumOfStatus, getRaises, h, h2, parseSum]
+
+theorem http_error_status_raises (hash : Nat → Nat) (prior : Option Nat) (ds : List (Nat × Nat))
+    (ss : List SumResp)
+    (hret : (download hash (start prior (ds.map fun a => dataOfStatus a.1 a.2) ss)).2 = .skipped ∨
+            (download hash (start prior (ds.map fun a => dataOfStatus a.1 a.2) ss)).2 = .done) :
+    ∀ a ∈ ds.take (nData (download hash (start prior (ds.map fun a => dataOfStatus a.1 a.2) ss)).1.log),
+      isHttpError a.1 = false := by
+  intro a ha
+  cases he : isHttpError a.1 with
+  | false => rfl
+  | true =>
+    exfalso
+    have hmem : dataOfStatus a.1 a.2 ∈ (ds.map fun a => dataOfStatus a.1 a.2).take
+        (nData (download hash (start prior (ds.map fun a => dataOfStatus a.1 a.2) ss)).1.log) := by
+      rw [← List.map_take]
+      exact List.mem_map_of_mem (f := fun a : Nat × Nat => dataOfStatus a.1 a.2) ha
+    exact http_error_raises hash prior _ ss hret _ hmem (data_of_error_status a.1 a.2 he)
+
 end PhyVerif.C20.Lemmas
